@@ -341,6 +341,16 @@ def w_model(ctx, rng, i):
             model.instance_vector(w); model.reconstruct_vector(x); model.project_out_vector(x)
     wn = rng.normal(size=model.n_active_components)
     model.instance(wn, normalized_weights=True)
+    # queries given as integer-typed vectors (pixel counts, integer landmarks): the same numbers, the same answers
+    xi = np.round(rng.normal(size=d) * max(scale, 1e-300) * 3)
+    if np.abs(xi).max() < 2 ** 40 and np.abs(xi).max() >= 2:
+        xi_int = xi.astype(np.int64)
+        ctx.tap("integer_typed_queries", "calls"); ctx.tap("integer_typed_queries", "checked")
+        for nm in ("project", "reconstruct", "project_out"):
+            a_ = np.asarray(getattr(PCAVectorModel, nm)(model, xi_int), dtype=float)
+            b_ = np.asarray(getattr(PCAVectorModel, nm)(model, xi.copy()), dtype=float)
+            if a_.shape != b_.shape or _amax(a_ - b_) > 1e-9 * max(1.0, float(np.abs(b_).max())):
+                ctx.fail("integer_typed_query_gives_another_answer_than_the_same_numbers_as_floats", cls=cls, mech=nm, err=_amax(a_ - b_) if a_.shape == b_.shape else None)
     # ---- history of active-component changes and trims
     events = []
     total = model.n_components
